@@ -94,6 +94,11 @@ def primitives(ctx, obs):
         for size in range(4):
             obs.call('blur_mask', masking.blur_mask, arr, size=size)
         obs.call('blur_mask (documented default size 1)', masking.blur_mask, arr)
+        if arr.ndim == 2 and min(arr.shape) >= 2:
+            # the same boolean array in another memory layout is the same array
+            obs.call('blur_mask (column-major input)', masking.blur_mask, numpy.asfortranarray(arr), size=1 + (int(arr.sum()) % 2))
+            obs.call('blur_mask (strided input)', masking.blur_mask, numpy.repeat(arr, 2, axis=1)[:, ::2], size=1)
+            obs.call('smear_mask (column-major input)', masking.smear_mask, numpy.asfortranarray(arr), [True, True])
         for pad in ([False, False], [False, True], [True, False], [True, True]):
             obs.call('smear_mask', masking.smear_mask, arr, pad)
         obs.call('c_mask_from_centres', arakawa_c.c_mask_from_centres, arr, dims, None)
